@@ -77,21 +77,34 @@ def rule_g(ctx):
     ctx.check(okk, rid, "no-free-in-dispatch", "no deallocation is reachable from signal dispatch, so the last reference to an action or "
               "snapshot is dropped by a mutator, never inside a handler (%d instances in the cone)" % len(cone.members), None,
               {"chain": cut.chain_text(free_outside[0][0].id) if free_outside else None})
-    # in the handler every read guard is dropped on every path to return
-    h = handler(F)
+    # in the dispatcher (normal form) every read guard is dropped on every path to return — directly, or as part of a private struct it was
+    # moved into
+    from . import reg
+    h, nh = reg.handler_n(F)
     ctx.fn(h)
+    L = reg.locks(F)
     n = 0
-    for l, ty in enumerate(h.body["locals"]):
-        if ty.startswith(RG + "<"):
+    for T in (reg.DATA_T, reg.FB_T):
+        for rb, rt in reg.calls_to(nh, L.readers(T)):
+            d = rt.get("dest")
+            if not d or d["p"]:
+                continue
             n += 1
-            drops = {bb for bb, t in h.drops() if not t["p"]["p"] and t["p"]["l"] == l}
-            defs = [bb for bb, t in h.calls() if t.get("dest") and not t["dest"]["p"] and t["dest"]["l"] == l]
-            okk = bool(defs)
-            for dbb in defs:
-                r = cfg.reachable_after(h, dbb, avoid=drops, unwind=False, labels=["ret"])
-                if r & set(h.exits()):
-                    okk = False
-            ctx.check(okk, rid, "handler-drops-guard:%s" % re.sub(r"[\w:]+::", "", ty), "the dispatcher drops this read guard on every path to return", h.span,
+            carriers = {d["l"]}; grow = True
+            while grow:
+                grow = False
+                for bl in nh.blocks:
+                    for st in bl["s"]:
+                        if st["k"] != "assign" or st["l"]["p"] or st["l"]["l"] in carriers:
+                            continue
+                        r_ = st["r"]
+                        ops = [r_["o"]] if r_["k"] == "use" else (r_["ops"] if r_["k"] == "aggregate" else [])
+                        if any(o.get("k") == "move" and o["p"]["l"] in carriers for o in ops):
+                            carriers.add(st["l"]["l"]); grow = True
+            drops = {bb for bb, t in nh.drops() if t["p"]["l"] in carriers}
+            r = cfg.reachable_after(nh, rb, avoid=drops, unwind=False, labels=["ret"])
+            okk = bool(drops) and not (r & set(nh.exits()))
+            ctx.check(okk, rid, "handler-drops-guard:%s" % T.split("::")[-1].rstrip(">"), "the dispatcher drops this read guard on every path to return", rt["sp"],
                       "a return path keeps the reader count incremented forever (writers would spin)")
     if n < 2:
         raise AnchorLost("the dispatcher holds fewer than two read guards")
